@@ -396,6 +396,7 @@ func (e *Engine) step(p *partition, row map[string]any, ts, seq int64) []map[str
 			if isComplete(s.states) {
 				completions = append(completions, s)
 			} else {
+				e.noteExtendable(&completions, s)
 				survivors = append(survivors, s)
 			}
 		}
@@ -408,6 +409,7 @@ func (e *Engine) step(p *partition, row map[string]any, ts, seq int64) []map[str
 			if isComplete(s.states) {
 				completions = append(completions, s)
 			} else {
+				e.noteExtendable(&completions, s)
 				survivors = append(survivors, s)
 			}
 		}
@@ -429,6 +431,19 @@ func (e *Engine) step(p *partition, row map[string]any, ts, seq int64) []map[str
 	e.capPending(p) // pending key 数上限：防贪婪延迟期无界累积
 	p.runs = survivors
 	return emitted
+}
+
+// noteExtendable records a run that is already a valid match but can still be
+// extended (greedy mode): it stays a survivor, and is also kept as a pending
+// completion. Without this, (A B)+ over A B A x lost the match A B — the run went
+// on into a second iteration, died there in a non-accepting state, and nothing
+// had remembered that it had been acceptable. ingestPending keeps the longest
+// completion per start and emitGreedy emits it once no run from that start is
+// alive, so a successful extension still wins.
+func (e *Engine) noteExtendable(completions *[]*run, s *run) {
+	if !e.lazy && hasAccept(s.states) {
+		*completions = append(*completions, s)
+	}
 }
 
 // advance 测试 row 能否被 run 当前闭包里的各 match-state 消费，返回全部后继 run（非确定性）。
